@@ -12,6 +12,11 @@ encoding (`-` = empty string); a list of strings is printed `[h,h,...]`.
   fmt  <0|1> <n,n,..|->        format_int_list(L, delim_space) -> `T<text> P<parse text> R<int_ranges text>`
   parse <hex>                  parse_int_list(text) / int_ranges_from_int_list(text) -> `P<..> R<..>`
   compl <hex> <a> <e|N>        complement_int_list(text, a, e) -> `T<text>` | `ValueError`
+  esaw <hexstyle> <hex>*       the same with sys.platform == 'win32'
+  fmtd <0|1> <hexd> <hexrd> <n,n,..|->      format_int_list(L, d, rd, delim_space) -> as `fmt`, everything read with d / rd
+  parsed <hexd> <hexrd> <hex>               parse_int_list / int_ranges_from_int_list with delimiters d / rd
+  compld <hexd> <hexrd> <hex> <a> <e|N>     complement_int_list(text, a, e, d, rd)
+                               (d, rd: one-character strings, else `bad-op`)
   table                        the generated safe-character ranges, printed back
 -/
 namespace C14.Driver
@@ -39,6 +44,21 @@ def args? (toks : List String) : Option (List Str) :=
     | some l, some s => some (toStr s :: l)
     | _, _ => none) (some [])
 
+def char? (h : String) : Option Char :=
+  match hexToString? h with
+  | some s => match s.toList with
+    | [c] => some c
+    | _ => none
+  | none => none
+
+def esa (w : Bool) (st : String) (toks : List String) : String :=
+  match hexToString? st, args? toks with
+  | some st, some args =>
+    match escapeShellArgs (toStr st) args w with
+    | some t => s!"T{hexOf t}"
+    | none => "ValueError"
+  | _, _ => "bad-op"
+
 def crtAll (t : Str) : String :=
   s!"D{showList (crtSplit .documented t)} L{showList (crtSplit .legacy t)} M{showList (crtSplit .modern t)}"
 
@@ -52,13 +72,28 @@ def handle (line : String) : String :=
     match args? toks with
     | some args => let t := args2cmd args; s!"T{hexOf t} {crtAll t}"
     | none => "bad-op"
-  | "esa" :: st :: toks =>
-    match hexToString? st, args? toks with
-    | some st, some args =>
-      match escapeShellArgs (toStr st) args with
+  | "esa" :: st :: toks => esa false st toks
+  | "esaw" :: st :: toks => esa true st toks
+  | ["fmtd", sp, hd, hr, l] =>
+    match natList? l, char? hd, char? hr with
+    | some l, some d, some rd =>
+      if sp = "0" ∨ sp = "1" then
+        let t := formatIntList l (sp = "1") d rd
+        s!"T{hexOf t} P{showOptNats (parseIntList t d rd)} R{showOptRanges (intRanges t d rd)}"
+      else "bad-op"
+    | _, _, _ => "bad-op"
+  | ["parsed", hd, hr, h] =>
+    match char? hd, char? hr, hexToString? h with
+    | some d, some rd, some s =>
+      s!"P{showOptNats (parseIntList (toStr s) d rd)} R{showOptRanges (intRanges (toStr s) d rd)}"
+    | _, _, _ => "bad-op"
+  | ["compld", hd, hr, h, a, e] =>
+    match char? hd, char? hr, hexToString? h, a.toInt?, (if e = "N" then some none else e.toInt?.map some) with
+    | some d, some rd, some s, some a, some e =>
+      match complementIntList (toStr s) a e d rd with
       | some t => s!"T{hexOf t}"
       | none => "ValueError"
-    | _, _ => "bad-op"
+    | _, _, _, _, _ => "bad-op"
   | ["shlex", h] =>
     match hexToString? h with
     | some s => s!"S{showOptList (shSplit (toStr s))}"
